@@ -20,7 +20,7 @@ LEVEL = "proof"
 ASSUMPTIONS = [
     "the first state invariant (no failed line in service behind a closed breaker) is PROVED for every reachable state of every well-formed configuration of the manual switching model (C05.isolated_invariant); well-formedness (wfB) and the inductive invariant (invJ) are evaluated by the driver on every configuration extracted from a real system and on every visited state, and the check fails if either is ever false",
     "PARTIAL: the second state invariant (switch positions agree with line status) is stated in Lean but not proved - it is tested on every state visited by the model and by the implementation in this run",
-    "the automatic (ICT) control path is exercised by the oracle only (no Lean model of sensors / intelligent switches in the control loop)",
+    "the automatic (ICT) control loops are modelled for sensors / intelligent switches that are in service (they never fail by themselves in the scenarios; what each controller can reach is read from the real ICT network in every increment and passed to the model) and compared state by state; device failures inside the control loop are exercised by C13 (state machines) and C16 (timing oracle) only",
     "a fault injected through the callback with repair time <= dt is repaired before the first control step (update_fail_status runs between callback and control loop); the 'breaker stays open for the sectioning time' clause is evaluated for faults still present at their first control step",
     "backup lines are outside the switching model (never faulted in these scenarios; closed/opened by island formation, see C04)",
 ]
@@ -70,14 +70,15 @@ def oracle(case, v, info):
 
 
 def auto_case(case):
-    """ICT-based control: oracle only."""
+    """ICT-based control: the automatic loops of the model (`stepA`, reachability of every sensor / intelligent switch read from
+    the real objects per increment) are compared state by state like the manual ones, plus the oracle."""
     v, ops, impl, info = ctl.run_scenario(case)
     viols = [(k.replace("c05.", "c05.auto-"), w) for k, w in oracle_auto(case, v, info)]
     sig = set()
     for r in info:
         if r["phase"] == "step":
             sig.add((tuple(sorted(k for k, o in r["cb_open"].items() if o)), len(r["failed"])))
-    return dict(ops=[], impl=[], viols=viols[:3], nontrivial=("auto",) + tuple(sorted(sig, key=str)), tag="auto")
+    return dict(ops=ops, impl=impl, viols=viols[:3], nontrivial=("auto",) + tuple(sorted(sig, key=str)), tag="auto")
 
 
 def oracle_auto(case, v, info):
